@@ -72,7 +72,7 @@ def scenarios_for(prop: str, tier: str, rng: random.Random) -> list[dict]:
         'C03': cp + tr + pick(rng, co, 2 if q else 10) + (rnd if not q else rnd[:2]),
         'C12': ro + (SC.relay_order_all_events() if not q else SC.relay_order_all_events()[::2]) + SC.registration() + SC.finishing_overlaps() + pick(rng, ov, n) + pick(rng, ks, n) + en[:4] + rnd[:3] + tr[:2],
         'C14': nu + SC.cancelled_resets() + SC.display() + pick(rng, ov, n + 2) + pick(rng, ks, n) + rnd[:3],
-        'C15': pick(rng, ov, n) + pick(rng, ks, n + 4) + en[4:] + rnd[:3] + tr[:3] + SC.cancelled_requests() + SC.failing_to_deliver(),
+        'C15': pick(rng, ov, n) + pick(rng, ks, n + 4) + en[4:] + rnd[:3] + tr[:3] + SC.cancelled_requests() + SC.failing_to_deliver() + SC.requests_from_hook_tasks(),
         'C16': co + rnd + pick(rng, ov, 6 if q else 10 ** 6),
     }[prop]
     return corpus_scenarios(prop) + fam
